@@ -30,6 +30,12 @@ def uncp(a):
     return "".join(chr(c) for c in a)
 
 
+def only_defs():
+    """replay mode: restrict a check to the definitions / instances named in VERIF_ONLY_DEFS (comma separated ids)"""
+    v = os.environ.get("VERIF_ONLY_DEFS", "").strip()
+    return {int(x) for x in v.split(",") if x} if v else None
+
+
 def workdir(name, clean=True):
     d = os.path.join(WORK, name)
     if clean and os.path.isdir(d):
@@ -357,7 +363,7 @@ class Report:
             print("KNOWN-FINDING: property=%s %s" % (self.prop, k["what"]))
         replay = None
         if self.violations:
-            rd = os.path.join(VERIF, "replays", "%s_%s_%d" % (self.prop, self.tier, self.seed))
+            rd = os.path.join(VERIF, "replays", "%s_%s_%d%s" % (self.prop, self.tier, self.seed, "_replayed" if os.environ.get("VERIF_REPLAY") else ""))
             shutil.rmtree(rd, ignore_errors=True)
             os.makedirs(rd, exist_ok=True)
             for n, (key, what, payload) in enumerate(self.violations[:40]):
@@ -374,8 +380,9 @@ class Report:
             self.cov["samples"] = ["(none)"]
         self.cov["states"] = max(self.cov["states"], 1)
         self.cov["transitions"] = max(self.cov["transitions"], 1)
-        with open(os.path.join(EVID, self.prop + ".json"), "w") as f:
-            json.dump(ev, f, indent=1)
+        if not os.environ.get("VERIF_REPLAY"):
+            with open(os.path.join(EVID, self.prop + ".json"), "w") as f:
+                json.dump(ev, f, indent=1)
         if self.violations:
             for key, what, _ in self.violations[:5]:
                 log("violation: %s  key=%s" % (what, json.dumps(key)))
